@@ -459,6 +459,7 @@ type Iter struct {
 
 type Skip struct {
 	Z, R0, Ct0, Hint bool
+	OnlyIter         int // 0: the skips apply to every iteration; k>0: only to iteration k (1-based)
 	// StopAt >= 0: emit the signature of iteration StopAt regardless of its checks (only the skipped ones are ignored).
 }
 
@@ -505,6 +506,10 @@ func (k *Key) Sign(msg []byte, skip Skip) *SignResult {
 		}
 		it := Iter{}
 		forced := false
+		skip := skip
+		if skip.OnlyIter > 0 && skip.OnlyIter != kappa+1 {
+			skip = Skip{}
+		}
 		it.SlackZ = InfNorm(z[:]) - (GAMMA1 - BETA)
 		if it.SlackZ >= 0 {
 			if !skip.Z {
@@ -677,3 +682,106 @@ func EtaNeedsSecondBlock(rhoPrime []byte, nonce uint16) bool {
 	}
 	return ctr < N
 }
+
+// ---- lenient variants, used only to show that a rejected rogue input is refused for exactly one reason ----
+
+type Lenient struct {
+	SkipZNorm     bool // do not test ||z|| < gamma1 - beta
+	AllowUnsorted bool // hint indices within a row need not increase
+	AllowPadding  bool // bytes after the last hint index need not be zero
+}
+
+func DecodeHintLenient(b []byte, l Lenient) (h [K]Poly, ok bool) {
+	k := 0
+	for i := 0; i < K; i++ {
+		end := int(b[OMEGA+i])
+		if end < k || end > OMEGA {
+			return h, false
+		}
+		for j := k; j < end; j++ {
+			if !l.AllowUnsorted && j > k && b[j] <= b[j-1] {
+				return h, false
+			}
+			h[i][b[j]] = 1
+		}
+		k = end
+	}
+	if !l.AllowPadding {
+		for j := k; j < OMEGA; j++ {
+			if b[j] != 0 {
+				return h, false
+			}
+		}
+	}
+	return h, true
+}
+
+var aCache = map[string]*[K][L]Poly{}
+
+func expandACached(rho []byte) *[K][L]Poly {
+	if a, ok := aCache[string(rho)]; ok {
+		return a
+	}
+	a := ExpandA(rho)
+	if len(aCache) > 8 {
+		aCache = map[string]*[K][L]Poly{}
+	}
+	aCache[string(rho)] = &a
+	return &a
+}
+
+// VerifyLenient is VerifyPK with individual strictness checks switched off (and a cache for A).
+func VerifyLenient(pk, msg, sig []byte, l Lenient) bool {
+	if len(pk) != PKBytes || len(sig) != SigBytes {
+		return false
+	}
+	h, ok := DecodeHintLenient(sig[32+640*L:], l)
+	if !ok {
+		return false
+	}
+	var z [L]Poly
+	for i := 0; i < L; i++ {
+		z[i] = UnpackZ(sig[32+640*i:])
+	}
+	if !l.SkipZNorm && InfNorm(z[:]) >= GAMMA1-BETA {
+		return false
+	}
+	rho := pk[:32]
+	var t1 [K]Poly
+	for i := 0; i < K; i++ {
+		t1[i] = UnpackT1(pk[32+320*i:])
+	}
+	ctilde := sig[:32]
+	A := expandACached(rho)
+	mu := shake256(64, shake256(32, pk), msg)
+	c := SampleInBall(ctilde)
+	var w1p []byte
+	for i := 0; i < K; i++ {
+		var az Poly
+		for j := 0; j < L; j++ {
+			m := Mul(&A[i][j], &z[j])
+			az = Add(&az, &m)
+		}
+		var t Poly
+		for cc := 0; cc < N; cc++ {
+			t[cc] = Mod(t1[i][cc] << D)
+		}
+		ct := Mul(&c, &t)
+		v := Sub(&az, &ct)
+		var w1 Poly
+		for cc := 0; cc < N; cc++ {
+			w1[cc] = UseHint(h[i][cc], v[cc])
+		}
+		w1p = append(w1p, PackW1(&w1)...)
+	}
+	c2 := shake256(32, mu, w1p)
+	for i := range c2 {
+		if c2[i] != ctilde[i] {
+			return false
+		}
+	}
+	return true
+}
+
+// Verify is the strict specification verifier (cached matrix expansion).
+func Verify(pk, msg, sig []byte) bool { return VerifyLenient(pk, msg, sig, Lenient{}) }
